@@ -121,7 +121,25 @@ def _real(fields):
             "quick": {"n": 36, "shards": 1}, "thorough": {"n": 600, "shards": 1}}
 
 
-_CS = [cs_write_calls_locked, cs_rearm_and_register_locked, cs_close_test_and_set]
+def cs_model_appends_only(sc):
+    """The model never reads `wire` / `accepted` (it only appends to them): what lets the driver hash them
+    incrementally. Every occurrence in the step functions must be `f := s.f ++ …`."""
+    from . import core
+    src = open(os.path.join(core.LEAN, "NbioVerif", "Model", "ConnFull.lean"), encoding="utf-8").read()
+    src = re.sub(r"/-.*?-/", "", src, flags=re.S)
+    src = re.sub(r"--[^\n]*", "", src)
+    src = src.split("abstract quantities", 1)[0]
+    bad = []
+    for f in ("wire", "accepted"):
+        for m in re.finditer(r"\.%s\b" % f, src):
+            pre = src[max(0, m.start() - len(f) - 6):m.start()]
+            post = src[m.end():m.end() + 4]
+            if not (re.search(r"%s := s$" % f, pre) and post.startswith(" ++")):
+                bad.append("%s at offset %d: %r" % (f, m.start(), src[max(0, m.start() - 30):m.end() + 10]))
+    return (not bad, "; ".join(bad[:3]))
+
+
+_CS = [cs_model_appends_only, cs_write_calls_locked, cs_rearm_and_register_locked, cs_close_test_and_set]
 
 PROPS = {
     "C01": {
